@@ -81,7 +81,13 @@ class Emcee(MCMCSampler):
             vectorize=True,
         )
 
-        rng = rng or np.random.default_rng()
+        if rng is not None:
+            # emcee draws from its own RandomState: seed it from the
+            # generator supplied by the user
+            seed = int(rng.integers(2**32 - 1))
+            self.sampler.random_state = np.random.RandomState(
+                seed
+            ).get_state()
 
         samples = self.draw_initial_samples(nwalkers)
         p0 = samples.x
